@@ -401,6 +401,13 @@ def gen_entry(draw, st, mods, tabs, frm, taken, allow_local_shapes=False, taken_
         for n in chosen:
             a = draw(st.sampled_from(ALIASES + MACRO_NAMES[:6])) if draw(st.integers(0, 2)) == 0 else None
             e["names"].append([n, a])
+        if draw(st.integers(0, 2)) == 0:
+            # the same macro once more under another name: [m :as x m :as y] / [m m :as y]
+            n = draw(st.sampled_from(chosen))
+            used = {(a or m) for m, a in e["names"]}
+            free = [a for a in ALIASES + MACRO_NAMES[:6] if a not in used]
+            if free:
+                e["names"].insert(draw(st.integers(0, len(e["names"]))), [n, draw(st.sampled_from(free))])
     if shape in ("names", "star"):
         e["kw"] = draw(st.booleans())
     if tab["readers"] and not allow_local_shapes and (shape == "none" or (shape not in ("bare", "sub") and draw(st.integers(0, 2)) == 0)):
